@@ -127,11 +127,11 @@ def subAlg (env : Env) : Nat → Gamma → Ty → Ty → Res
         let g1 := (a, b) :: g
         match a, b with
         | .var x, _ =>
-          match recFind env n x with
+          match recFindFull env x with
           | none => .panic "subtype.rs:rec_find_type.unwrap"
           | some d => subAlg env n g1 d b
         | _, .var x =>
-          match recFind env n x with
+          match recFindFull env x with
           | none => .panic "subtype.rs:rec_find_type.unwrap"
           | some d => subAlg env n g1 a d
         | _, _ => .panic "subtype.rs:find_type(knot).unwrap"
@@ -272,11 +272,11 @@ def eqAlg (env : Env) : Nat → Gamma → Ty → Ty → Res
         let g1 := (a, b) :: g
         match a, b with
         | .var x, _ =>
-          match recFind env n x with
+          match recFindFull env x with
           | none => .panic "subtype.rs:rec_find_type.unwrap"
           | some d => eqAlg env n g1 d b
         | _, .var x =>
-          match recFind env n x with
+          match recFindFull env x with
           | none => .panic "subtype.rs:rec_find_type.unwrap"
           | some d => eqAlg env n g1 a d
         | _, _ => .panic "subtype.rs:find_type(knot).unwrap"
